@@ -324,6 +324,33 @@ class Prop:
                 kind = rng.choice(KINDS)
                 root = (rvalue() if rng.random() < 0.3 else rvalue(kind), rleaf(kind))
             cs.append(Case(self.mk(root, types, rng.random() < 0.5), 'project-%dtypes' % nt))
+        # empty containers with an `or` rule: the example's json type has to be among the alternatives' - whatever was
+        # checked before (other members, registered types, references to enum / any types)
+        from props.c10 import spec
+        good = ['[] // {or: [{type: "array"}, {type: "integer"}]}', '{} // {or: ["object", "string"]}', '@t', '@t | @n', '1 // {type: "@e"}', '"x" // {type: "@y"}',
+                '1 // {or: ["@e", "string"]}', '[\n    1\n  ]', '5']
+        bad = [('[] // {or: [{type: "string"}, {type: "integer"}]}', True), ('{} // {or: ["string", "integer"]}', True), ('[] // {or: ["object", "integer"]}', True),
+               ('{} // {or: [{type: "array"}, "boolean"]}', True), ('[] // {or: ["array", "integer"]}', False), ('{} // {or: [{type: "object"}, "null"]}', False)]
+        types = {'@t': '[\n  1\n]', '@n': '{\n  "k": 1\n}', '@e': '1 // {enum: [1, 2]}', '@y': '"x" // {type: "any"}'}
+
+        def member(text, last):
+            if '\n' in text or text[0] in '[{' and len(text) > 2:       # a container written over lines / with its rule after the bracket
+                if ' // ' in text and text[:2] in ('[]', '{}'):
+                    return text[0] + text[2:] + '\n  ' + text[1] + ('' if last else ',')
+                return text + ('' if last else ',')
+            v, _, ann = text.partition(' // ')
+            return v + ('' if last else ',') + ((' // ' + ann) if ann else '')
+        for g in good:
+            for b, isbad in bad:
+                for order in ((g, b), (b, g)):
+                    root = '{\n  "p": %s\n  "q": %s\n}' % (member(order[0], False), member(order[1], True))
+                    cs.append(Case('corj %s || %s' % ('value' if isbad else 'ok', spec(root, types)), 'container-or'))
+                # the bad node inside a registered type, the widening node in the root (types are checked after the root)
+                tt = dict(types)
+                tt['@z'] = '{\n  "q": %s\n}' % member(b, True)
+                cs.append(Case('corj %s || %s' % ('value' if isbad else 'ok', spec('{\n  "p": %s\n  "r": @z\n}' % member(g, False), tt)), 'container-or'))
+        for b, isbad in bad:
+            cs.append(Case('corj %s || %s' % ('value' if isbad else 'ok', spec(member(b, True) if not b.startswith(('[', '{')) else b[0] + b[2:] + '\n' + b[1], types)), 'container-or'))
         return cs
 
     def parse(self, line):
@@ -396,8 +423,8 @@ class Prop:
         return out
 
     def model_lines(self, lines, impl):
-        # rule sets the compiler refuses as ill-formed are outside the model (and the statement)
-        return [l if self.project(o) in ('ok', 'value') else None for l, o in zip(lines, impl)]
+        # rule sets the compiler refuses as ill-formed are outside the model (and the statement); so are the container cases
+        return [l if (self.project(o) in ('ok', 'value') and not l.startswith('corj ')) else None for l, o in zip(lines, impl)]
 
     def nontrivial(self, c):
         return True
@@ -413,8 +440,11 @@ class Prop:
         if k.startswith('other') or k not in ('ok', 'value'):
             self.others[k] = self.others.get(k, 0) + 1
             return None            # rejected because the rule set itself is ill-formed: outside the statement
-        root, types = self.parse(case.line)
-        want = expected(root, types)
+        if case.line.startswith('corj '):
+            want = case.line.split(' ')[1]
+        else:
+            root, types = self.parse(case.line)
+            want = expected(root, types)
         self.verdicts[want] = self.verdicts.get(want, 0) + 1
         if want != k:
             return 'examples %s the rules, Check() says %s' % ('satisfy' if want == 'ok' else 'break', out[:40])
